@@ -1,6 +1,7 @@
 package main
 
 import (
+	"strings"
 	"encoding/json"
 	"errors"
 	"fmt"
@@ -16,10 +17,43 @@ import (
 
 type otherType struct{ X int }
 
+// time payloads: "<unix nanoseconds>" (UTC), "<unix nanoseconds>@<zone offset in seconds>", "zero" (the zero
+// time.Time, which UnixNano cannot express) and "zero@<offset>" (the zero instant carrying a zone)
+func timeOfPayload(payload []byte) time.Time {
+	p := string(payload)
+	off := 0
+	hasZone := false
+	if i := strings.IndexByte(p, '@'); i >= 0 {
+		off, _ = strconv.Atoi(p[i+1:])
+		hasZone = true
+		p = p[:i]
+	}
+	var t time.Time
+	if p != "zero" {
+		n, _ := strconv.ParseInt(p, 10, 64)
+		t = time.Unix(0, n).UTC()
+	}
+	if hasZone {
+		t = t.In(time.FixedZone("Z"+strconv.Itoa(off), off))
+	}
+	return t
+}
+
+func payloadOfTime(t time.Time) []byte {
+	p := "zero"
+	if !t.IsZero() {
+		p = strconv.FormatInt(t.UnixNano(), 10)
+	}
+	if name, off := t.Zone(); t.Location() != time.UTC && !(name == "UTC" && off == 0) {
+		p += "@" + strconv.Itoa(off)
+	}
+	return []byte(p)
+}
+
 func opaqueSexp(o ugo.Object) *Sexp {
 	switch v := o.(type) {
 	case *ugotime.Time:
-		return L(A("o"), hexAtom([]byte("time")), hexAtom([]byte(strconv.FormatInt(v.Value.UnixNano(), 10))))
+		return L(A("o"), hexAtom([]byte("time")), hexAtom(payloadOfTime(v.Value)))
 	case *ugotime.Location:
 		return L(A("o"), hexAtom([]byte("location")), hexAtom([]byte(v.Value.String())))
 	case *ugojson.RawMessage:
@@ -33,8 +67,7 @@ func opaqueOfSexp(s *Sexp) ugo.Object {
 	payload := atomBytes(s.List[2])
 	switch tag {
 	case "time":
-		n, _ := strconv.ParseInt(string(payload), 10, 64)
-		return &ugotime.Time{Value: time.Unix(0, n).UTC()}
+		return &ugotime.Time{Value: timeOfPayload(payload)}
 	case "location":
 		loc, err := time.LoadLocation(string(payload))
 		if err != nil {
@@ -176,14 +209,12 @@ func GoOfSexp(s *Sexp) any {
 		}
 		switch tag {
 		case "time.Time":
-			n, _ := strconv.ParseInt(string(payload), 10, 64)
-			return time.Unix(0, n).UTC()
+			return timeOfPayload(payload)
 		case "*time.Time":
 			if isnil {
 				return (*time.Time)(nil)
 			}
-			n, _ := strconv.ParseInt(string(payload), 10, 64)
-			t := time.Unix(0, n).UTC()
+			t := timeOfPayload(payload)
 			return &t
 		case "*time.Location":
 			if isnil {
@@ -271,7 +302,7 @@ func SexpOfGo(v any) *Sexp {
 		}
 		return out
 	case time.Time:
-		return L(A("reg"), hexAtom([]byte("time.Time")), hexAtom([]byte(strconv.FormatInt(v.UnixNano(), 10))))
+		return L(A("reg"), hexAtom([]byte("time.Time")), hexAtom(payloadOfTime(v)))
 	case *time.Location:
 		return L(A("reg"), hexAtom([]byte("*time.Location")), hexAtom([]byte(v.String())))
 	case json.RawMessage:
